@@ -63,7 +63,7 @@ type oLife struct {
 	m map[int]*lifeModel
 	// counters for the evidence
 	sawBoth, sawPausedComplete, sawLocalOnly, sawFinalizeRelease bool
-	order                                                       []string
+	order                                                        []string
 }
 
 func newOLife() *oLife { return &oLife{m: map[int]*lifeModel{}} }
@@ -475,11 +475,11 @@ type cleanupModel struct {
 }
 
 type oCleanup struct {
-	m                          map[int]*cleanupModel
-	quietEndings, racyEndings  int
-	extraCleanups              int
-	endingFromNonOngoing       int
-	restartCleanups            int
+	m                         map[int]*cleanupModel
+	quietEndings, racyEndings int
+	extraCleanups             int
+	endingFromNonOngoing      int
+	restartCleanups           int
 }
 
 func newOCleanup() *oCleanup { return &oCleanup{m: map[int]*cleanupModel{}} }
